@@ -818,7 +818,12 @@ class C17(Check):
             self._memo[case] = r
         return r
 
+    _work = [0]  # candidate evaluations spent on minimising in this process
+    WORK_CAP = 40000  # beyond this, failing cases are reported as they are (mass failures: the runner caps too)
+
     def _minimise(self, case, clause, budget=300):
+        if self._work[0] > self.WORK_CAP:
+            return case
         path = []
         cur = case
         steps = 0
@@ -831,6 +836,7 @@ class C17(Check):
             nxt = None
             for cand in self.shrink(cur):
                 steps += 1
+                self._work[0] += 1
                 if steps > budget:
                     break
                 if clause in self._clauses(cand):
